@@ -1,6 +1,6 @@
 (* Property C12 — directory mode is the conjunction of file comparisons; every file accounted for. *)
-From Coq Require Import Arith Bool List.
-From FC Require Import Model.Compare Model.Cli Proofs.CliP.
+From Coq Require Import NArith Arith Bool List.
+From FC Require Import Model.Compare Model.Cli Proofs.CliP Model.Glob Proofs.GlobP.
 Import ListNotations.
 
 Theorem C12_categorize_spec : forall consider supported mapped src ref p,
@@ -41,9 +41,42 @@ Theorem C12_accounted_once : forall consider supported mapped src ref is_f ir_f 
 Proof. intros. apply accounted_once. Qed.
 Print Assumptions C12_accounted_once.
 
+(* the file filters (Model/Glob.v: PatternFilter over fnmatch, tied to the implementation on generated patterns and paths):
+   without --include-files every path is selected, without --exclude-files none is excluded; a pattern made of a directory
+   part and '*' selects exactly the paths below that directory, at any depth ('*' also takes '/'); a pattern "*text"
+   selects exactly the paths ending in the text; a pattern without wildcard selects exactly itself *)
+Theorem C12_default_filters : forall path, pattern_filter include_all path = true /\ pattern_filter exclude_all path = false.
+Proof. intros. split; [apply include_all_accepts|apply exclude_all_rejects]. Qed.
+Print Assumptions C12_default_filters.
+
+Theorem C12_directory_pattern : forall dir path, plain dir = true ->
+  (fnmatch path (dir ++ [c_star]) = true <-> firstn (length dir) path = dir).
+Proof. exact prefix_star_matches_prefix. Qed.
+Print Assumptions C12_directory_pattern.
+
+Theorem C12_extension_pattern : forall ext path, plain ext = true ->
+  (fnmatch path (c_star :: ext) = true <-> exists pre, path = pre ++ ext).
+Proof. exact star_suffix_matches_suffix. Qed.
+Print Assumptions C12_extension_pattern.
+
+Theorem C12_filter_is_any_pattern : forall ps path,
+  pattern_filter ps path = true <-> exists p, In p ps /\ fnmatch path p = true.
+Proof. exact pattern_filter_spec. Qed.
+Print Assumptions C12_filter_is_any_pattern.
+
 Example C12_nonvacuous :
   let c := categorize (fun p => negb (p =? 5)) (fun p => p <? 3) (fun p => p =? 3) [0;1;3;4;5;6] [1;0;3;4;5;7;8] in
   to_compare c = [0;1;3] /\ unsupported c = [4] /\ discarded c = [5] /\ missing_src c = [7;8] /\ missing_ref c = [6] /\
   cli_dir true true c (fun _ => FSuite {| ts_status := None; ts_tests := [] |}) = 0 /\
   cli_dir false true c (fun _ => FSuite {| ts_status := None; ts_tests := [] |}) = 1.
+Proof. vm_compute. repeat split; reflexivity. Qed.
+
+(* "run1/*" selects run1/a/b.csv but not run2/a.csv; "*.vtu" selects x/y.vtu but not x/y.vtp; "[a-c]?.csv" selects b1.csv *)
+Example C12_patterns_nonvacuous :
+  fnmatch [114;117;110;49;47;97;47;98;46;99;115;118]%N [114;117;110;49;47;42]%N = true /\
+  fnmatch [114;117;110;50;47;97;46;99;115;118]%N [114;117;110;49;47;42]%N = false /\
+  fnmatch [120;47;121;46;118;116;117]%N [42;46;118;116;117]%N = true /\
+  fnmatch [120;47;121;46;118;116;112]%N [42;46;118;116;117]%N = false /\
+  fnmatch [98;49;46;99;115;118]%N [91;97;45;99;93;63;46;99;115;118]%N = true /\
+  plain [114;117;110;49;47]%N = true.
 Proof. vm_compute. repeat split; reflexivity. Qed.
